@@ -356,6 +356,7 @@ def step (d : St) (line : String) : St × String :=
   -- each line; the answers describe the code the locking model was tied to, any other shape is a structural failure)
   | ["facts", "servehttp-unique"] => (d, "servehttp=rest.MuxImpl serves=rest.MuxImpl.Start:mi")
   | ["facts", "lock-sites"] => (d, "admin.Mux.changeStatus:defer:m.statusLock.Unlock admin.Mux.changeStatus:m.statusLock.Lock admin.Mux.timestampedStatus:defer:m.statusLock.Unlock admin.Mux.timestampedStatus:m.statusLock.Lock rest.MuxImpl.Exclusively:defer:mi.requestLock.Unlock rest.MuxImpl.Exclusively:mi.requestLock.Lock rest.MuxImpl.ServeHTTP:defer:mi.requestLock.Unlock rest.MuxImpl.ServeHTTP:mi.requestLock.Lock")
+  | ["facts", "detached-execution"] => (d, "-")
   | ["facts", "go-statements"] => (d, "admin.Mux.WaitForShutdownSignal server.RestServer.Start server.RestServer.Start")
   | ["facts", "startup"] => (d, "bootstrap=deriveEngineBehaviour,deriveInitialEngineState,runEngine,flushStreams start-before-go=s.apiMux.SetCacheMaxAge s.adminMux.SetCacheMaxAge s.adminMux.SetStatus")
   | ["facts", "handlers"] => (d, "own=9 foreign=server.RestServer.WithApiMux:s.apiMux<-s.adminMux.StatusHandler")
